@@ -14,6 +14,7 @@ func init() {
 			"client address family, number of station registrations, position of the own phantom relative to nested exclusions, send-fault pattern) tuples among accepted requests; " +
 			"the weighted-choice verdict of a configuration is only drawn after >= 400 observed substitutions. 1 in 6 general requests runs under a send-fault plan on the registrar's socket " +
 			"(ETERM/EINVAL/EAGAIN/EINTR/EHOSTUNREACH/EFSM/generic; always, once, k times, short count): such a case is an evaluation whatever the outcome (told-the-client => a message was ACCEPTED). " +
+			"Stage concurrent: 16 goroutines x 400 (thorough 4000) registrations with distinct secrets per round on ONE processor; an evaluation = one successful call matched against the multiset of accepted messages. " +
 			"Stages api and dns repeat the told=>accepted and returned-vs-forwarded oracles through the real HTTP handlers / DNSRegServer.processRequest (half of the requests faulted)",
 		Assumptions: []string{
 			"the station is a real lib.RegistrationManager (both families enabled, min/obfs4/prefix registered) fed through parseRegMessage; ingest stages after parsing (liveness, blocklists) are other properties",
